@@ -186,6 +186,8 @@ def check(prog, rep):
     rep.analysed["reachable_functions"] = len(reach)
     rep.analysed["excluded_unreachable"] = sorted(set(prog.funcs) - reach)[:80]
     run_lints(prog, rep, reach, "")
+    from .shared import rule_bundled_tables_from_package
+    rep.guarded(rule_bundled_tables_from_package, prog, rep, "R7")
     controls(rep)
 
 
@@ -323,6 +325,41 @@ def run_lints(prog, rep, reach, tag, only_rules=None):
                    f"{kind}-level mutable {name}: " + ("mutated only at import time or never" if not sites else
                                                        f"mutated at run time in {sites[0][0].key} line {sites[0][1].lineno}"),
                    f"pdb2pqr/{rel}:{st.lineno}")
+    # ---- R2/R3: objects created by a call at import time live as long as the process
+    SAFE_CTORS = ("logging.getLogger", "getLogger", "float", "int", "str", "bool", "tuple", "frozenset", "range", "re.compile", "Path", "PurePath",
+                  "pathlib.Path", "namedtuple", "collections.namedtuple", "TypeVar", "typing.TypeVar", "len", "max", "min", "sum", "sorted", "round", "abs",
+                  "math.sqrt", "math.radians", "math.degrees", "Decimal", "Fraction", "object")
+    if tag == "":
+        for rel, mod in prog.modules.items():
+            if rel == "run.py":
+                continue
+            for st in mod.tree.body:
+                if not (isinstance(st, (ast.Assign, ast.AnnAssign)) and isinstance(st.value, ast.Call)):
+                    continue
+                ctor = U(st.value.func)
+                names = [t.id for t in (st.targets if isinstance(st, ast.Assign) else [st.target]) if isinstance(t, ast.Name)]
+                if any(ctor.startswith(a) or f".{a}" in f".{ctor}" for a in AMBIENT):
+                    r2.bad(f"ambient|{rel}:{ctor}", f"module-level {', '.join(names)} = {ctor}(...): an ambient source created at import time "
+                           "and shared by every run of the process", f"pdb2pqr/{rel}:{st.lineno}")
+                if ctor in SAFE_CTORS or ctor in ("list", "dict", "set", "OrderedDict", "defaultdict"):
+                    continue
+                for nm_ in names:
+                    users = []
+                    for key, f in prog.funcs.items():
+                        if key not in reach or nm_ not in _func_src(f):
+                            continue
+                        if f.module.rel != rel and nm_ not in _imported_names(prog, f.module.rel):
+                            continue
+                        local = {a.arg for a in f.node.args.args} | {t_.id for s_ in iter_stmts(f.node.body) if isinstance(s_, ast.Assign)
+                                                                    for t_ in s_.targets if isinstance(t_, ast.Name)}
+                        if nm_ in local:
+                            continue
+                        for c in calls_in(f.node):
+                            if isinstance(c.func, ast.Attribute) and isinstance(c.func.value, ast.Name) and c.func.value.id == nm_:
+                                users.append((f, c))
+                    r3.add(f"shared|{rel}:{nm_}", not users, f"module-level object {nm_} = {ctor}(...): " + ("no method is called on it at run time" if not users else
+                           f"its method {users[0][1].func.attr}() is called at run time in {users[0][0].key}: whatever state the object keeps is carried "
+                           "from one run of the process to the next"), f"pdb2pqr/{rel}:{st.lineno}")
     # ---- R5: per-run construction of the shared model objects
     builders = {"get_definitions", "Forcefield", "create_handler", "Debump", "Psize", "HydrogenRoutines", "Biomolecule",
                 "Definition", "Mol2Molecule"}
